@@ -34,7 +34,9 @@ static int do_dec(uint8_t *m, size_t *mlen, const uint8_t *c, size_t clen, const
         /* the incremental interface has no length check of its own: the caller splits off the tag */
         if (clen < 16) return -1;
         api_inc_state st; api_inc_init[alg](&st, n, k); api_inc_start[alg](&st, ad, adlen);
-        api_inc_dec[alg](&st, c, m, clen - 16); r = api_inc_decfin[alg](&st, c + clen - 16); api_inc_free[alg](&st);
+        /* alternately out of place and in place (documented for the block functions: "out may be the same buffer as in") */
+        { static unsigned ip; if (ip++ & 1) { memcpy(m, c, clen - 16); api_inc_dec[alg](&st, m, m, clen - 16); } else api_inc_dec[alg](&st, c, m, clen - 16); }
+        r = api_inc_decfin[alg](&st, c + clen - 16); api_inc_free[alg](&st);
         *mlen = clen - 16; break; }
     case 2: { api_masked_key mk; api_masked_key_init(alg, &mk, k);
         /* every other call uses the key after it has been re-randomised (once or twice): same key value, other shares */
